@@ -1389,6 +1389,8 @@ def mon_c15(w, F, vd):
                                        [("r", r[0], None, r[1]) for r in resps], key=lambda x: x[1]):
             if kind == "q":
                 waiting.append(j)
+                if len(waiting) >= 2 and (t_end is None or t < t_end - EPS):
+                    vd.label("c15:two_pingreq_outstanding")
             elif waiting:
                 answered[waiting.pop(0)] = t
         # unanswered PINGREQ => abort no later than t+k ; all answered in time => keepalive never closes
@@ -1422,6 +1424,8 @@ def mon_c15(w, F, vd):
             nontriv = True
         vd.label("c15:keepalive_%s" % (k if k in (1, 2, 3, 5, 7, 60, 65535) else "other"),
                  "c15:periods_%s" % ("0" if n_periods == 0 else "1-2" if n_periods < 3 else "3-9" if n_periods < 10 else "10+"))
+        if getattr(w, "max_late", 0.0) > 1e-6:
+            vd.label("c15:late_timer_passes")
         if pings and all_in_time:
             vd.label("c15:all_answered_in_time")
         if len(resps) > len(pings):
